@@ -28,6 +28,7 @@ import resource
 import shutil
 import subprocess
 import sys
+import threading
 import time
 
 VERIF = os.path.dirname(os.path.dirname(os.path.abspath(__file__)))
@@ -47,6 +48,20 @@ CBMC_BASE = [
 
 ENV = dict(os.environ, CARGO_NET_OFFLINE="true", CARGO_TERM_COLOR="never")
 ENV.pop("RUSTFLAGS", None)
+
+
+def mem_budget_gb():
+    """Sum of per-harness memory caps that may run at once: 75% of RAM (no swap here)."""
+    env = os.environ.get("VERIF_MEM_GB")
+    if env:
+        return float(env)
+    try:
+        for line in open("/proc/meminfo"):
+            if line.startswith("MemAvailable:"):
+                return max(4.0, int(line.split()[1]) / (1 << 20) * 0.75)
+    except OSError:
+        pass
+    return 16.0
 
 
 def log(*a):
@@ -86,7 +101,7 @@ def parse_harnesses(crate):
                     ann[k] = q if v.startswith('"') else v
                 continue
             t = line.strip()
-            if t.startswith("proof!"):
+            if t.startswith("proof!") or t.startswith("proof_h!"):
                 in_proof = True
                 continue
             if in_proof:
@@ -209,7 +224,7 @@ def run(cmd, log_fp, timeout, mem_gb):
 
 def resolve_unwindset(spec, goto, lf, timeout, mem):
     """`substr=N;substr=N` -> CBMC loop ids. A loop is selected when `substr` occurs in its id
-    (e.g. `memcmp`) or in the pretty name of the function that contains it; ids are read from
+    (e.g. `memcmp`), in the pretty name of the function that contains it, or in its source file path; ids are read from
     `cbmc --show-loops` on the very binary being checked, so they follow /repo's source."""
     out, rc, _ = run(["cbmc", "--show-loops", "--json-ui", goto], lf, timeout, mem)
     loops = []
@@ -226,7 +241,8 @@ def resolve_unwindset(spec, goto, lf, timeout, mem):
         sub, n = item.rsplit("=", 1)
         for lp in loops:
             fn = lp.get("sourceLocation", {}).get("function", "")
-            if sub in lp["name"] or sub in fn:
+            fl = lp.get("sourceLocation", {}).get("file", "")
+            if sub in lp["name"] or sub in fn or sub in fl:
                 pairs.append(f'{lp["name"]}:{int(n)}')
     return ",".join(pairs)
 
@@ -245,7 +261,7 @@ def verify_one(h, meta, rundir, scale):
     t0 = time.time()
     mangled = meta["mangled_name"]
     steps = [
-        ["goto-cc", meta["goto_file"], kani_lib_c(), "-o", g],
+        ["goto-cc", meta["goto_file"], kani_lib_c(), os.path.join(VERIF, "driver", "clib", "memcmp_words.c"), "-o", g],
         ["goto-cc", g, "--function", mangled, "-o", g],
         ["goto-instrument", "--add-library", "--no-malloc-may-fail", g, g],
         ["goto-instrument", "--generate-function-body-options", "assert-false-assume-false",
@@ -290,7 +306,7 @@ def verify_one(h, meta, rundir, scale):
             tail = (out or b"")[-600:].decode("utf8", "replace")
         except Exception:
             pass
-        res.update(status="inconclusive", reason=f"cbmc rc={rc} (out of memory or internal error) {tail[-300:]}")
+        res.update(status="inconclusive", reason=f"cbmc rc={rc} (out of memory or internal error)")
         return res
     open(os.path.join(rundir, name + ".json"), "wb").write(out)
     try:
@@ -514,9 +530,29 @@ def main():
     # longest first within the rotation keeps the tail short
     hs.sort(key=lambda h: -float(h.get("timeout", "300")))
     jobs = a.jobs or max(1, min(len(hs), (os.cpu_count() or 4) - 2))
+    budget = mem_budget_gb()
     results = []
-    with cf.ThreadPoolExecutor(max_workers=jobs) as ex:
-        futs = {ex.submit(verify_one, h, metas[h["name"]], rundirs[h["crate"]], a.timeout_scale): h for h in hs}
+    lock = threading.Lock()
+    cond = threading.Condition(lock)
+    used = [0.0, 0]  # GB reserved, running
+
+    def worker(h):
+        need = min(float(h.get("mem", "10")), budget)
+        with cond:
+            while used[1] >= jobs or (used[1] > 0 and used[0] + need > budget):
+                cond.wait()
+            used[0] += need
+            used[1] += 1
+        try:
+            return verify_one(h, metas[h["name"]], rundirs[h["crate"]], a.timeout_scale)
+        finally:
+            with cond:
+                used[0] -= need
+                used[1] -= 1
+                cond.notify_all()
+
+    with cf.ThreadPoolExecutor(max_workers=max(jobs, len(hs))) as ex:
+        futs = {ex.submit(worker, h): h for h in hs}
         for f in cf.as_completed(futs):
             r = f.result()
             results.append(r)
